@@ -77,6 +77,13 @@ CHECKS["C15"] = (
     "5.C15",
 )
 
+CHECKS["C17"] = (
+    "bounded symbolic execution (CrossHair+z3) over symbolic value text (character and segment selectors) and modifier, per position x pipeline instantiation; real from_dict -> pipeline -> convert_rule vs a reference expansion of the source text",
+    "Values: every string of length <= 4 over {%, a, b, backslash, *} and every concatenation of 1..3 segments out of 11 (0..3 placeholders with list/scalar/numeric/mixed-type/undefined variables, literals, wildcards, escaped percent); positions: field string, keyword, regular expression; 6 pipelines (none, value list, wildcard, include/exclude splits in both orders, query expression). Oracle: OR of exactly the reference expansions in configuration order, or a SigmaError naming the unresolved placeholder; never %name% in a query.",
+    TB,
+    "5.C17",
+)
+
 NOT_APPLICABLE = {}
 
 ALL = [f"C{n:02d}" for n in range(1, 21)]
